@@ -528,7 +528,7 @@ package dawn
 //@   callsite Rename: assert record-directory-ensured: mkdir_ok && mkdir_last == pdir(path)
 //@   ensures  one-rename: n_rename <= old(n_rename) + 1 && n_createtemp <= old(n_createtemp) + 1
 //@   ensures  success-means-renamed: result == nil ==> n_rename == old(n_rename) + 1
-//@   modifies heap, enc_ok, close_ok, n_rename, n_createtemp, mkdir_last, mkdir_ok
+//@   modifies heap, enc_ok, close_ok, n_rename, n_createtemp, mkdir_last, mkdir_ok, n_mkdirall
 
 // The up-to-date check of a source looks at contents only.
 //@ func (*dawn.sourceFile).upToDate variant content-only
@@ -622,12 +622,14 @@ package dawn
 //@   modifies heap
 //@ func (*dawn.Project).load
 //@   uses (*dawn.Project).link variant counted
+//@   uses os.MkdirAll variant effects
 //@   requires proj != nil
+//@   ensures  an-unreadable-index-is-never-fatal: (index && n_loadindex == old(n_loadindex) + 1 && loadindex_failed) ==> n_mkdirall == old(n_mkdirall) + 1
 //@   callsite saveIndex: assert index-written-only-after-a-complete-load: n_link == old(n_link) + 1
 //@   ensures  index-not-required: !index ==> n_loadindex == old(n_loadindex)
 //@   ensures  falls-back: (index && n_loadindex == old(n_loadindex) + 1 && loadindex_failed) ==> (n_loadpkg == old(n_loadpkg) + 1 || result != nil)
 //@   ensures  always-full-unless-indexed: (result == nil && n_loadpkg == old(n_loadpkg)) ==> (index && n_loadindex == old(n_loadindex) + 1 && !loadindex_failed)
-//@   modifies heap, n_loadindex, loadindex_failed, n_loadpkg, n_link
+//@   modifies heap, n_loadindex, loadindex_failed, n_loadpkg, n_link, mkdir_last, mkdir_ok, n_mkdirall
 
 // C03: a crash at any point of saveTargetInfo leaves the record path holding either the previous
 // record or the complete new one. The rename is the only effect on the record path
